@@ -74,11 +74,22 @@ def headIsLifetime : TS → Bool
 
 def isPlainInt (s : String) : Bool := !s.isEmpty && s.toList.all Char.isDigit
 
-/-- literal that syn would classify as an integer literal but that is not plain decimal digits -/
+/-- decimal digits followed by an alphabetic suffix (`1u8`, `0usize`): an integer literal, but not a valid tuple index -/
+def isSuffixedInt (s : String) : Bool :=
+  let cs := s.toList
+  let digits := cs.takeWhile Char.isDigit
+  let rest := cs.dropWhile Char.isDigit
+  !digits.isEmpty && !rest.isEmpty && rest.all (fun c => c.isAlphanum) && (rest.head?.map Char.isAlpha).getD false
+    && !(rest.head? == some 'e') && !(rest.head? == some 'E') && !(digits == ['0'] && (rest.head? == some 'x' || rest.head? == some 'o' || rest.head? == some 'b'))
+
+/-- literal that syn would classify as an integer literal in a radix / with separators the model does not evaluate -/
 def isOddInt (s : String) : Bool :=
   match s.toList with
-  | c :: _ => c.isDigit && !isPlainInt s && !s.toList.contains '.'
+  | c :: _ => c.isDigit && !isPlainInt s && !isSuffixedInt s && !s.toList.contains '.' && !(s.toList.any fun c => c == 'e' || c == 'E')
   | [] => false
+
+/-- `Index::parse` succeeds: unsuffixed decimal integer that fits `u32` -/
+def isIndexLit (s : String) : Bool := isPlainInt s && s.toNat! < 4294967296
 
 /-! ### ParseBuffer operations -/
 
@@ -171,7 +182,7 @@ def Member.isNamed : Member → Bool
 
 /-- `fork.parse::<syn::Index>().is_ok()` on the head of a token list -/
 def headIsIndex : TS → Except PErr Bool
-  | .lit s :: _ => if isPlainInt s then .ok true else if isOddInt s then .error (.unsupported "non-decimal integer literal") else .ok false
+  | .lit s :: _ => if isIndexLit s then .ok true else if isOddInt s then .error (.unsupported "non-decimal integer literal") else .ok false
   | _ => .ok false
 
 def peekMember (b : Back) : P Bool := do
@@ -185,7 +196,7 @@ def parseMember (b : Back) : P Member := do
   match (← toks) with
   | .ident s :: r => if isKeyword b s then failLib else do setToks r; return .named s
   | .lit s :: r =>
-    if isPlainInt s then do setToks r; return .unnamed s.toNat!
+    if isIndexLit s then do setToks r; return .unnamed s.toNat!
     else if isOddInt s then failUnsup "non-decimal integer literal" else failLib
   | _ => failLib
 
